@@ -51,6 +51,9 @@ def run_grid(case):
 def _atom(a):
     t, v, f = a["t"], a["v"], a.get("f", 0)
     if t == "num":
+        if f == 2:
+            import numpy
+            return numpy.float64(v)           # a float subclass: a number like any other
         return float(v) if f else int(v)
     if t == "neg":
         return -float(v) if f else -int(v)
@@ -87,7 +90,7 @@ def raw_cases(rng, n):
     good = [[0, 1, 1, 0, 1, 1], [1, 1, 0, 1, 1, 0]]
 
     def atoms(vals, bad=None):
-        out = [{"t": "num", "v": v, "f": rng.randint(0, 1)} for v in vals]
+        out = [{"t": "num", "v": v, "f": rng.randint(0, 2)} for v in vals]
         if bad:
             j, t = bad
             out[j] = {"t": t, "v": rng.randint(0, 2), "f": rng.randint(0, 1)}
@@ -250,6 +253,8 @@ def stages(tier, rng, only=None):
            Stage("raw", "Trace_Scheme", run_raw, lambda: raw_cases(rng, 600 if tier == "quick" else 1500), _nt, _init)]
     g = core.grid_schemes()
     sch = [(B, T, 4) for B, T in (rng.sample(g, 150) if tier == "quick" else g)] + list(ac.PRESET)
+    # penalties around 1e-9 (unit 2^30): products with a factor < 1 go below 1e-10
+    sch += [(B, T, 2 ** 30) for B, T in rng.sample(g, 30)]
     out.append(Stage("mul", "Trace_Scheme", run_mul, lambda: mul_cases(rng, sch, 2 if tier == "quick" else 1), _nt,
                      _init))
     out.append(Stage("equiv", "Trace_Scheme", run_equiv, lambda: equiv_cases(rng, 120 if tier == "quick" else 300),
